@@ -6,7 +6,8 @@ The abstract state is a `Bag` = `List (K × V)` read up to permutation.  Because
 acceptable answer of `Peek`/`Delete`, the Spec is a relation "`out` is an admitted outcome of `op` in
 bag `b`, leaving bag `b'`" rather than a function.  For mergeable heaps a history runs over a family
 of heaps (registers `0, 1, 2, …`, all empty at first): `merge d s` moves everything heap `s` holds into
-heap `d` and leaves `s` empty; both heaps stay in use.  Merging a heap into itself changes nothing.
+heap `d` and leaves `s` empty; both heaps stay in use.  Merging a heap into itself changes nothing, and neither
+does `mergeOther d`, a `Merge` whose operand is not a heap of the same implementation type.
 -/
 namespace AlgoVerif.C04
 variable {K V : Type}
@@ -39,6 +40,10 @@ inductive MOp (K V : Type) where
   | on (r : Nat) (op : Op K V)
   /-- `heap[dst].Merge(heap[src])` -/
   | merge (dst src : Nat)
+  /-- `heap[dst].Merge(H)` where `H` is not a heap of the same implementation type (a heap of the other
+  mergeable implementation, or the nil interface): "the new heap must have the same underlying type", the
+  type assertion fails and nothing happens (`H` is not a member of the family and is not changed either) -/
+  | mergeOther (dst : Nat)
   deriving Repr
 
 /-- observable result of one operation -/
@@ -84,6 +89,9 @@ def MStep (cmp : K → K → Int) (eqV : V → V → Bool) (bags : Nat → Bag K
       (d = s → bags' = bags) ∧
       (d ≠ s → (bags' d).Perm (bags d ++ bags s) ∧ bags' s = [] ∧ ∀ r', r' ≠ d → r' ≠ s → bags' r' = bags r')
   | .merge _ _, _, _ => False
+  -- an operand of another type is ignored: every heap holds what it held
+  | .mergeOther _, .unit, bags' => bags' = bags
+  | .mergeOther _, _, _ => False
 
 /-- a history on a family of heaps is admitted (no operation panics or diverges) -/
 def Admitted (cmp : K → K → Int) (eqV : V → V → Bool) :
